@@ -238,13 +238,16 @@ def write_chunk(outfile, name, data):
 def write_track(outfile, track):
     data = bytearray()
 
-    running_status_byte = None
-    for msg in fix_end_of_track(track):
+    # Check the times before end_of_track messages are folded into the
+    # following message, which could hide a negative time.
+    for msg in track:
         if not isinstance(msg.time, Integral):
             raise ValueError('message time must be int in MIDI file')
         if msg.time < 0:
             raise ValueError('message time must be non-negative in MIDI file')
 
+    running_status_byte = None
+    for msg in fix_end_of_track(track):
         if msg.is_realtime:
             raise ValueError('realtime messages are not allowed in MIDI files')
 
